@@ -1,6 +1,8 @@
 #!/usr/bin/env python3
 """Scripted url_rewrite helper (concurrency channel ids). argv[1] = control directory.
-Reads <dir>/plan.json: {"batch": N, "order": [k...], "cuts": [[k, j]...], "pause": s, "noreply": [k...]}
+Reads <dir>/plan.json: {"batch": N, "order": [k...], "cuts": [[k, j]...], "pause": s, "noreply": [k...],
+"strays": [[k, what]...]}  (a stray reply line is written in front of the reply of k: what = "dup:<k2>" repeats the channel id
+of the already written reply of k2, "chan:<n>" uses channel id n; the payload of a stray names no request)
 collects N request lines, then writes the reply lines in the given order (k = token at the end of the URL path),
 cutting the byte stream at the given offsets inside the reply of k, each fragment in its own write() with a pause.
 Logs what it saw / wrote to <dir>/helper.ndjson."""
@@ -46,9 +48,22 @@ order = [k for k in plan.get('order', []) if k in got] + [k for k in got if k no
 order = [k for k in order if k not in plan.get('noreply', [])]
 stream = b''
 cutpos = []
+nstray = 0
 for k in order:
     chan, url = got[k]
     base = url.rsplit('/orig/', 1)[0]
+    for kk, what in plan.get('strays', []):
+        if kk != k:
+            continue
+        kind, arg = what.split(':', 1)
+        schan = got[arg][0] if kind == 'dup' and arg in got else arg
+        if kind == 'dup' and (arg not in got or arg not in order[:order.index(k)]):
+            continue        # only a channel whose reply was already written is a duplicate
+        if kind == 'chan' and any(c == schan for c, _ in got.values()):
+            continue        # that channel is in use: not a stray
+        nstray += 1
+        stream += ('%s OK rewrite-url="%s/rw/STRAY%d"\n' % (schan, base, nstray)).encode()
+        L(e='HStray', chan=int(schan), before=k, what=what)
     line = ('%s OK rewrite-url="%s/rw/%s"\n' % (chan, base, k)).encode()
     for kk, j in plan.get('cuts', []):
         if kk == k and 0 < j < len(line):
